@@ -83,7 +83,7 @@ CLAIMED = {
  "C16": dict(
    text="Group.tla models one group member (afkak's Coordinator / ConsumerGroup): coordinator lookup, topic metadata load, graceful shutdown of the previous generation's consumers, join, the leader's partition lookup, sync, start of the assigned consumers with generation and member id, heartbeat looper, delayed rejoins, the error table of rejoin_after_error, consumer errors, stop (consumers first, then leave). TLC checks exhaustively within a depth bound that a join request goes out only when no consumer of the previous generation is left, consumers are started only from a sync answer with the current generation/member id and from the committed position, eviction (illegal generation, unknown member, timeout) stops the consumers in the same event, one join/sync exchange at a time, heartbeats only while stable, nothing but the leave request after stop. An edge cover of the state graph, TLC -simulate behaviours and seeded random schedules are executed on the real ConsumerGroup over a scripted client and scripted partition consumers, and TLC re-validates every recorded step.",
    ref="DESIGN.md 0.9, 6.7, 7 (C16)",
-   note="Trusted: TLC. The client and the partition consumers are the member's environment in this family (scripted): that commits carry the generation and member id is checked at the consumer's constructor arguments; the Consumer's own commit/stop contract is C03/C13's subject. Other members exist only through the coordinator's answers. A member is not restarted after stop."),
+   note="Trusted: TLC. The client and the partition consumers are the member's environment in this family (scripted): that commits carry the generation and member id is checked at the consumer's constructor arguments; the Consumer's own commit/stop contract is C03/C13's subject. Other members exist only through the coordinator's answers. A member is not restarted after stop. End to end: two real members (real KafkaClients, real Consumers) on the simulated cluster with a simulated group coordinator that holds joins until the scheduler completes the rebalance; after every scheduled event TLC evaluates GroupFence.tla on the recorded snapshot (consumer identity = member's generation/id, exclusivity within a generation, assignment, join only without consumers, heartbeat and commit identity, committed = processed after a successful graceful shutdown)."),
  "C17": dict(
    text="Same specification and executions as C16, judged on C17's clauses: after every event of a started, not stopping member there is a request of the join protocol outstanding, or consumers being shut down for a join, or a delayed rejoin on the clock, or the heartbeat looper running with no rejoin wanted (checked on the model state and, independently, on the observed outstanding calls and timers of the real object); every error kind on every request leads to the rejoin delay of the documented table (retry / initial / fatal backoff); errors that are not Kafka errors surface on the start Deferred.",
    ref="DESIGN.md 0.9, 6.7, 7 (C17)",
